@@ -570,7 +570,11 @@ def normalize_args(args):
                 vn = '?'
     a['version_name'] = vn
     e = a.get('error')
-    a['error_name'] = e.upper() if isinstance(e, str) and e.upper() in LEVELS else (None if e is None else '?')
+    if isinstance(e, int) and not isinstance(e, bool) and e in (0, 1, 2, 3):
+        # the library also accepts its level constants, which are the ISO format-information level bits
+        a['error_name'] = {1: 'L', 0: 'M', 3: 'Q', 2: 'H'}[e]
+    else:
+        a['error_name'] = e.upper() if isinstance(e, str) and e.upper() in LEVELS else (None if e is None else '?')
     m = a.get('mask')
     try:
         a['mask_int'] = None if m is None else int(m)
